@@ -188,3 +188,17 @@ MANIFEST_TEXT["C16"] = {
     "level_note": "Pure functions, so millions of evaluations are cheap; inputs are boundary grids plus seeded samples.",
     "technique": "runtime round-trip (decode o encode = id) monitors with boundary-value generators",
 }
+
+META["C12"] = {
+    "level": "exploration",
+    "rule": "Query strings of three kinds run against a 3-partition table (one partition still in the open buffer) with every column kind: (a) 90 hand-listed constructs the SQL parser accepts but the engine does not, or that sit on edges (JOIN, GROUP BY, HAVING, DISTINCT, subquery, IN, BETWEEN, CASE, CAST, UNION, window functions, several statements, non-SELECT, LIMIT/OFFSET that are fractional / beyond u64 / beyond the table / without LIMIT, unknown table, unknown column, aggregates of wrong arity or type, constants as select items, duplicate aliases, comments, empty input, NUL, unterminated quotes); (b) grammar-generated statements of the supported subset with random nesting, three quoting styles, aliases, ten numeric literal forms (negative, leading zeros, fractional, exponent, > u64, .5, 5.), WHERE trees, ORDER BY, LIMIT/OFFSET around the table length, and grouped statements; (c) 1-3 byte-level edits (delete, duplicate, replace, insert from an alphabet with quotes/operators/non-ASCII, splice with another statement) of four valid statements. Oracle: the call returns (panic monitor at the caller, progress monitor); Ok answers are validated structurally: colnames vs columns (count, order, names), aliases used, equal column lengths, row view == column view cell by cell (NULL == in-band marker), rows <= LIMIT, unknown table is an error, unknown column all NULL. One evaluation = one string. Distinct non-trivial = distinct (kind/construct, outcome class).",
+    "budget": {"quick": 90, "thorough": 900},
+    "floors": {"quick": {"evaluations": 5000, "distinct": 60, "counters": {"answers_ok": 800, "errors:ParseError": 500}}},
+    "assumptions": COMMON_ASSUMPTIONS + ["Only the envelope is judged here; values are C03-C06's business. A lost answer (Canceled) is reported through the panic monitor with the panic site."],
+}
+MANIFEST_TEXT["C12"] = {
+    "level_text": "Robustness monitor at the API boundary: thousands of valid, unsupported and mutated query strings are submitted to the real engine; a panic in the caller, a panic in a worker (lost answer), a hang, or a structurally ill-formed Ok result is a violation.",
+    "design_ref": "DESIGN.md section 3, C12",
+    "level_note": "String space sampled (seeded) around a fixed construct list; remaining worker panics at known sites are listed as known findings.",
+    "technique": "runtime robustness monitor (panic/hang monitors + structural result validator) under grammar-based and mutation fuzzing",
+}
